@@ -273,13 +273,19 @@ def securityUnreadable (attrs : List Annot) : Bool :=
       | some (_, k, v) => k != .arr || v.startsWith (String.singleton (Char.ofNat 2))
       | none => false)
 
+/-- `ast.IsExported` for the names the generators use -/
+def isExportedName (n : String) : Bool := match n.toList.head? with | some c => c.isUpper | none => false
+
 /-- everything the receiver validator reports; `none` = a hard (non-diagnostic) error -/
 def validateReceiver (env : TypeEnv) (errorEmbedders : List String) (enforce hasDefault : Bool) (ctrlAnnots : List Annot) (m : Method) :
     Option (List Diag) :=
   -- `validateSecurity` reads the controller's and the route's security only when the enforce flag is on
   if enforce && (securityUnreadable ctrlAnnots || securityUnreadable m.annots) then none else
   (validateParams env m).map fun pd =>
-    commonValidate "route" m.annots ++ pd ++ validateReturns errorEmbedders m ++
+    commonValidate "route" m.annots ++
+    -- the generated router is a package of its own: it cannot call an unexported method (fix for C09-F5)
+    (if isExportedName m.name then [] else [err "unsupported-feature"]) ++
+    pd ++ validateReturns errorEmbedders m ++
     validateSecurity enforce hasDefault ctrlAnnots m ++
     linkValidate (((ctrlAnnots.find? (·.name = "Route")).map (·.value)).getD "") m
 
